@@ -679,7 +679,10 @@ def corpus(rng, n, repo, want=None):
 
 
 SWEEP_KINDS = ["'lit'", "b'by'", "b'\\\\'", "b'C:\\\\Users\\\\me\\\\'", "b'\\\\x'", "b'/tmp/x\\\\N{'", "'C:\\\\tmp\\\\'", "7", "2.5", "None", "True", "[]", "['METHOD_MD5', 1]", "()", "('a', b)", "{1, 2}", "{}", "{'a': 1}", "name_", "obj_.attr", "call_()", "'a' + b_",
-               "f'{x_}'", "lambda: 0", "*rest_", "[i for i in y_]", "(w_ := 3)", "a_[0]", "-1", "..."]
+               "f'{x_}'", "lambda: 0", "*rest_", "[i for i in y_]", "(w_ := 3)", "a_[0]", "-1", "...",
+               # an integer literal beyond the interpreter's int -> str digit limit (4300): valid Python, but str() / ast.unparse of it raise (found on the unchanged tree:
+               # B103, B609 and B202 formatted such an argument into their messages); alone and inside a list
+               "0x1" + "f" * 4000, "['chmod', 0x1" + "f" * 4000 + ", '*']"]
 
 
 def arg_sweep(repo, kinds=None):
@@ -698,6 +701,8 @@ def arg_sweep(repo, kinds=None):
         if kinds is None or nm in kinds:
             if nm == "Constant":
                 nm = "Constant-" + type(v.value).__name__        # one representative per Python type of constant (str, bytes, int, float, NoneType, bool, ellipsis)
+            if len(kind) > 1000:
+                nm += "-huge"
             reps.append((kind, nm))
     for name, src in seeds(repo):
         tree = ast.parse(src)
